@@ -210,6 +210,25 @@ pub fn tree_worker(prop: &str, tier: &str, k: usize, n: usize, ctx: &mut Ctx) {
         }
       });
       crate::clear_current_case();
+      // C01 quantifies over ANY attached map: also maps whose segments are not sorted
+      // (columns or lines going backwards). C17/C19 keep to sorted maps.
+      for raw in ["CAAC,DAAD", "MAAA,FAAA,EAAA", "AAAA;AACA,DAAA", "KAAA,AAAA,DAAA", "EAAA;AACA;;DAAA,CAAA", "IAAA,FAAA;AAAA,KAAA,HAAA"] {
+        for text in ["hello world\n", "ab\ncdef", "abcdef"] {
+          if !st.mine() {
+            continue;
+          }
+          let mut m = MapSpec::new(vec![], &["s0"], Some(&["ab\ncd"]), &["n0"]);
+          m.raw_mappings = Some(raw.to_string());
+          let leaf = Term::sms(text, "unsorted.js", m);
+          for w in wild_contexts(&leaf) {
+            crate::set_current_case(&w);
+            ctx.states += 1;
+            ctx.count("unsorted_map_cases");
+            tc::c01(ctx, &w);
+          }
+        }
+      }
+      crate::clear_current_case();
     }
     "C02" => sweep(ctx, &general_scope(tier), k, n, &all, &mut |c, t| tc::c02(c, t)),
     "C03" => sweep(ctx, &general_scope(tier), k, n, &all, &mut |c, t| tc::c03(c, t)),
